@@ -68,7 +68,7 @@ def Conn.startTLS (c : Conn) : Conn × Option Err :=
         | .ok => (c'.ev .tlsOn).ehlo
         | .drop => ({ c'.ev .drop with srvGone := true }, some .eof)
         | .stall => (({ c' with srvSilent := true }).waitSilent.1, some (if c'.armed then .timeout else .blocked))
-        | _ => (c'.ev .tlsFail, some .tls)
+        | _ => ({ c'.ev .tlsFail with srvGone := true, broken := some .tls }, some .tls)
 
 /-- Client.tls: the policy decision; returns isEncrypted -/
 def clientTLS (cfg : DialCfg) (c : Conn) (isEnc : Bool) : Conn × Bool × Option Err :=
